@@ -78,7 +78,6 @@ func Run(sc Scenario, ch Chooser) *Outcome {
 		out.viol("C16", "no-hooks", "harness built without -tags verif", "")
 		return out
 	}
-	runtime.GC()
 	base := runtime.NumGoroutine()
 	wo := WorldOptions{Sessions: sc.Sessions, NoSeed: sc.EmptyStart}
 	wo.Opts.MinOplogSize, wo.Opts.MaxOplogSize = sc.MinOplog, sc.MaxOplog
@@ -296,9 +295,22 @@ func monitorsC16(out *Outcome, c *Controller, w *World, base int) {
 			out.viol("C16", "close-not-prompt", "call after Close did not return within 200 ms", name)
 		}
 	}
-	leak := true
+	// the process-wide count returns to the baseline; when other shards of the harness are busy the
+	// count is noisy, so the decisive test is: no goroutine is left inside lungo / tomb code
+	leak, where := true, ""
 	for i := 0; i < 60; i++ {
 		if runtime.NumGoroutine() <= base {
+			leak = false
+			break
+		}
+		n := 0
+		for _, st := range allGoroutines() {
+			if strings.Contains(st.Stack, "github.com/256dpi/lungo") || strings.Contains(st.Stack, "tomb.v2") {
+				n++
+				where = st.Wait + " " + firstLine(st.Stack)
+			}
+		}
+		if n == 0 {
 			leak = false
 			break
 		}
@@ -306,8 +318,15 @@ func monitorsC16(out *Outcome, c *Controller, w *World, base int) {
 	}
 	if leak {
 		out.viol("C16", "goroutine-leak", "goroutines did not return to the baseline after Close",
-			fmt.Sprintf("baseline %d now %d", base, runtime.NumGoroutine()))
+			fmt.Sprintf("baseline %d now %d: %s", base, runtime.NumGoroutine(), where))
 	}
+}
+
+func firstLine(s string) string {
+	if i := strings.IndexByte(s, '\n'); i >= 0 {
+		return s[:i]
+	}
+	return s
 }
 
 // ReadOplog returns the events of local.oplog in order.
